@@ -71,13 +71,12 @@ def allBits : Nat → List (List Bool)
   | 0 => [[]]
   | n + 1 => (allBits n).map (false :: ·) ++ (allBits n).map (true :: ·)
 
-theorem binaryVector_eq_allBits (n : Nat) : binaryVector n = allBits n := by
+theorem range_map_bits (n : Nat) : (List.range (2 ^ n)).map (bits n) = allBits n := by
   induction n with
-  | zero => simp [binaryVector, allBits, bits]
+  | zero => simp [allBits, bits]
   | succ n ih =>
     have h2 : 2 ^ (n + 1) = 2 ^ n + 2 ^ n := by ring
     have hpos : 0 < 2 ^ n := Nat.pos_of_ne_zero (by positivity)
-    unfold binaryVector at ih ⊢
     rw [h2, List.range_add, List.map_append, allBits, ← ih]
     congr 1
     · simp only [List.map_map]
@@ -94,6 +93,14 @@ theorem binaryVector_eq_allBits (n : Nat) : binaryVector n = allBits n := by
       have e2 : (2 ^ n + i) % 2 ^ n = i := by
         rw [Nat.add_mod_left, Nat.mod_eq_of_lt hi']
       simp [bits, e1, e2]
+
+/-- for `n ≥ 1` the strings of `format(i,'0nb')`, `i < 2^n`, are all bit strings of length `n` in ascending order -/
+theorem binaryVector_eq_allBits (n : Nat) (hn : n ≠ 0) : binaryVector n = allBits n := by
+  rw [← range_map_bits]
+  unfold binaryVector
+  apply List.map_congr_left
+  intro i _
+  simp [formatBin, hn]
 
 theorem mem_allBits {n : Nat} {s : List Bool} : s ∈ allBits n ↔ s.length = n := by
   induction n generalizing s with
@@ -169,30 +176,45 @@ def proj (qidx : List Nat) (s : List Bool) : List Bool := qidx.map fun i => s.ge
 /-- string positions of the measured qubits, in the order of the measure instructions: `qubits_layout.index(q)` -/
 def positions (layout : List Nat) (meas : List (Nat × Nat)) : List Nat := meas.map fun t => layout.idxOf t.1
 
+/-- the width-0 quirk of `format` is invisible when nothing is projected -/
+theorem binaryVector_map_proj (n : Nat) (qidx : List Nat) (h : n = 0 → qidx = []) :
+    (binaryVector n).map (proj qidx) = (allBits n).map (proj qidx) := by
+  by_cases hn : n = 0
+  · subst hn
+    simp [h rfl, binaryVector, allBits, proj]
+  · rw [binaryVector_eq_allBits n hn]
+
 /-- `_measurament` never raises when every measured qubit is in the layout and `n_qubit = len(layout)`;
 its result is the accumulation over the projected basis strings. -/
 theorem measurement_eq {α : Type} (num : Num α) (prob : List α) (meas : List (Nat × Nat)) (layout : List Nat)
     (hmem : ∀ t ∈ meas, t.1 ∈ layout) :
     measurement num prob meas layout.length layout =
       .ok (accumulate num (prob.zip ((allBits layout.length).map (proj (positions layout meas))))) := by
-  unfold positions
-  have h1 : mapE (fun t : Nat × Nat => indexOf layout t.1) meas = .ok (meas.map fun t => layout.idxOf t.1) :=
+  have h0 : layout.length = 0 → positions layout meas = [] := by
+    intro h
+    have hl : layout = [] := List.length_eq_zero_iff.mp h
+    cases meas with
+    | nil => rfl
+    | cons t ts => have := hmem t (by simp); simp [hl] at this
+  have h1 : mapE (fun t : Nat × Nat => indexOf layout t.1) meas = .ok (positions layout meas) :=
     mapE_ok _ _ _ (fun t ht => indexOf_of_mem (hmem t ht))
-  have h2 : mapE (fun s => mapE (charAt s) (meas.map fun t => layout.idxOf t.1)) (binaryVector layout.length) =
-      .ok ((binaryVector layout.length).map (proj (meas.map fun t => layout.idxOf t.1))) := by
+  have h2 : mapE (fun s => mapE (charAt s) (positions layout meas)) (binaryVector layout.length) =
+      .ok ((binaryVector layout.length).map (proj (positions layout meas))) := by
     apply mapE_ok
     intro s hs
-    rw [binaryVector_eq_allBits] at hs
-    have hl : s.length = layout.length := mem_allBits.mp hs
-    apply mapE_ok
-    intro i hi
-    simp only [List.mem_map] at hi
-    obtain ⟨t, ht, rfl⟩ := hi
-    exact charAt_ok (hl ▸ List.idxOf_lt_length_of_mem (hmem t ht))
+    by_cases hn : layout.length = 0
+    · rw [h0 hn]; rfl
+    · rw [binaryVector_eq_allBits _ hn] at hs
+      have hl : s.length = layout.length := mem_allBits.mp hs
+      apply mapE_ok
+      intro i hi
+      simp only [positions, List.mem_map] at hi
+      obtain ⟨t, ht, rfl⟩ := hi
+      exact charAt_ok (hl ▸ List.idxOf_lt_length_of_mem (hmem t ht))
   unfold measurement
   rw [h1]
   dsimp only
-  rw [h2, binaryVector_eq_allBits]
+  rw [h2, binaryVector_map_proj _ _ h0]
 
 /-! ### the dictionary -/
 
